@@ -102,6 +102,8 @@ class Builder:
         if not isinstance(e, ast.Name):
             return None
         head = e.id
+        if head == normalize.ABS_HEAD and head not in env:
+            return ".".join(parts[::-1])                  # absolute spelling (helper brought in from another module)
         if head in env or head not in self.imports:      # parameters / locals shadow module names
             return None
         base = self.imports[head]
